@@ -1,0 +1,10 @@
+//go:build verif
+
+package cobalt
+
+import plugintypes "github.com/projecteru2/core/resource/plugins/types"
+
+// VerifMergeCapacity exposes mergeCapacity so that a harness can fold plugin answers in a chosen order.
+func (m Manager) VerifMergeCapacity(m1, m2 map[string]*plugintypes.NodeDeployCapacity) map[string]*plugintypes.NodeDeployCapacity {
+	return m.mergeCapacity(m1, m2)
+}
